@@ -22,6 +22,7 @@ def problems():
     import numpy as np
     return {
         'linear2': (2, lambda X: 3.0 - X[0] - X[1], [stats.norm(), stats.norm()], np.eye(2), 3.0 / math.sqrt(2)),
+        'linear2far': (2, lambda X: 6.0 - X[0] - X[1], [stats.norm(), stats.norm()], np.eye(2), 6.0 / math.sqrt(2)),
         'linear3': (3, lambda X: 4.0 - X[0] - X[1] - X[2], [stats.norm(), stats.norm(), stats.norm()], np.eye(3), 4.0 / math.sqrt(3)),
         'lognormal': (2, lambda X: X[0] * X[1] - 0.2, [stats.lognorm(0.5), stats.lognorm(0.3)], np.eye(2), None),
         'quadratic': (2, lambda X: 5.0 - X[0] ** 2 - X[1], [stats.norm(), stats.norm()], np.eye(2), None),
@@ -197,6 +198,34 @@ def explore(res, rng, n):
                                       'impl': str(levels)[:300], 'model': a[:300]})
 
 
+def coarse_band_under_config(res, rng):
+    """quick and thorough: the estimate on the linear-Gaussian problem stays within a factor 1000 of the exact Phi( -beta ) (the spread observed over seeds at N = 300 is a factor 16 either way) also when globalConfig.atol / rtol (digits for the cycle counters) are 0: a chain that no longer moves
+    returns p0^maxSubsets, five orders of magnitude away.  A labelled coarse statistical check with fixed seeds, not a theorem"""
+    from scipy import stats
+    from ffpack.config import globalConfig
+    name, N, p0 = 'linear2far', 300, 0.1             # beta = 4.24, pf = 1.1e-5: five to six levels
+    exact = float(stats.norm.cdf(-problems()[name][4]))
+    for config in ((0, 0), (0, 5), None):
+        old = (globalConfig.atol, globalConfig.rtol)
+        sd = rng.randrange(10 ** 6)
+        case = {'problem': name, 'numSamples': N, 'probLevel': p0, 'maxSubsets': 10, 'seed': sd, 'globalConfig': config, 'exact_pf': exact}
+        try:
+            if config:
+                globalConfig.atol, globalConfig.rtol = config
+            r = traced_run(name, N, p0, 10, sd)
+        except Exception as e:  # noqa
+            fail(res, 'subsetSimulation raised under a changed global configuration: ' + repr(e)[:120], case, None)
+            continue
+        finally:
+            globalConfig.atol, globalConfig.rtol = old
+        res.evaluations += 1
+        res.stat('coarse_band_config_' + ('default' if config is None else 'atol%d_rtol%d' % config))
+        moved = sum(1 for ch in r['chains'] if len(set(ch)) > 1)
+        if not (exact / 1000 <= r['pf'] <= exact * 1000):
+            fail(res, 'estimate more than a factor 1000 from the exact failure probability of the linear-Gaussian problem', case,
+                 {'pf': r['pf'], 'levels': int(r['lsf'].shape[0]), 'chains_that_moved': moved, 'chains': len(r['chains'])})
+
+
 def statistical(res, rng):
     """thorough tier only: a labelled statistical test, not a theorem (DESIGN §7)"""
     from scipy import stats
@@ -225,6 +254,7 @@ def run(tier, seed):
     n = 12 if tier == 'quick' else 300
     rng = random.Random(seed)
     explore(res, rng, n)
+    coarse_band_under_config(res, random.Random(seed + 11))
     if tier == 'thorough':
         statistical(res, rng)
     res.disagreements_checked = res.traces
